@@ -14,7 +14,7 @@ def m(id, prop, rule, file, old, new, key=None, twin=False):
 
 MUTANTS = [
     # ---- C09 R1: wrong / missing dependency names (incl. undoing the F3 repair)
-    m("c09-undo-F3", "C09", "R1", S, '    @cache_in_state("pos")\n    def dh2_dpos(self, state: ChainState) -> ArrayLike:\n        return state.pos', '    @cache_in_state("mom")\n    def dh2_dpos(self, state: ChainState) -> ArrayLike:\n        return state.pos', key="GaussianEuclideanMetricSystem.dh2_dpos"),
+    m("c09-undo-F3", "C09", "R1", S, '    @cache_in_state("pos")\n    def dh2_dpos(self, state: ChainState) -> ArrayLike:\n        # Copy', '    @cache_in_state("mom")\n    def dh2_dpos(self, state: ChainState) -> ArrayLike:\n        # Copy', key="GaussianEuclideanMetricSystem.dh2_dpos"),
     m("c09-h2-dep-pos", "C09", "R1", S, '    @cache_in_state("mom")\n    def h2(self, state: ChainState) -> ScalarLike:\n        return 0.5 * state.mom @ self.dh2_dmom(state)', '    @cache_in_state("pos")\n    def h2(self, state: ChainState) -> ScalarLike:\n        return 0.5 * state.mom @ self.dh2_dmom(state)', key="EuclideanMetricSystem.h2"),
     m("c09-gram-dep-mom", "C09", "R1", S, '    @cache_in_state("pos")\n    def gram(', '    @cache_in_state("mom")\n    def gram(', key="gram"),
     m("c09-neg_log_dens-nodep", "C09", "R1", S, '    @cache_in_state("pos")\n    def neg_log_dens(', '    @cache_in_state()\n    def neg_log_dens(', key="neg_log_dens"),
@@ -29,6 +29,10 @@ MUTANTS = [
     m("c09-pickle-swap", "C09", "R5", ST, 'self.__dict__["_variables"] = state["variables"]\n        self.__dict__["_dependencies"] = state["dependencies"]', 'self.__dict__["_variables"] = state["dependencies"]\n        self.__dict__["_dependencies"] = state["variables"]'),
     m("c09-pickle-deps-drop-invalidated", "C09", "R5", ST, '            "dependencies": self._dependencies,', '            "dependencies": {n: {k for k in d if self._cache.get(k) is not None} for n, d in self._dependencies.items()},'),
     m("c09-twin-pickle-deps-only-cached", "C09", None, ST, '            "dependencies": self._dependencies,', '            "dependencies": {n: {k for k in d if k in self._cache} for n, d in self._dependencies.items()},', twin=True),
+    m("c09-undo-F15-identity", "C09", "R8", "matrices.py", "        return other.copy()\n\n    def _right_matrix_multiply(self, other: NDArray) -> NDArray:\n        return other.copy()", "        return other\n\n    def _right_matrix_multiply(self, other: NDArray) -> NDArray:\n        return other"),
+    m("c09-undo-F15-dh2_dpos", "C09", "R8", S, "        return state.pos.copy()", "        return state.pos"),
+    m("c09-cached-view-of-state", "C09", "R8", S, "        return state.pos.copy()", "        return np.asarray(state.pos)"),
+    m("c09-twin-dh2_dpos-np-array", "C09", None, S, "        return state.pos.copy()", "        return np.array(state.pos)", twin=True),
     m("c09-key-without-system-id", "C09", "R6", ST, '    return (f"{type(system).__name__}.{method}", id(system))', '    return f"{type(system).__name__}.{method}"'),
     m("c09-no-registration", "C09", "R6", ST, "            if key not in state._cache:\n                for dep in depends_on:\n                    state._dependencies[dep].add(key)\n            if key not in state._cache or state._cache[key] is None:", "            if key not in state._cache or state._cache[key] is None:"),
     m("c09-marker-not-recognised", "C09", "R6", ST, "            if key not in state._cache or state._cache[key] is None:\n                state._cache[key] = method(self, state)", "            if key not in state._cache:\n                state._cache[key] = method(self, state)"),
